@@ -15,6 +15,9 @@ the extra degrees of freedom those properties need:
   every slab / source / detector entry may carry "place": "grid" (default: set_grid_coordinates) | "real"
   (RealCoordinateConstraint on all three axes, min sides pinned at the physical edge coordinate, domain centre = 0) |
   "center" (partial_real_position = physical centre of the object relative to the domain centre)
+  center [cx,cy,cz] physical coordinate of the domain centre (default 0): UniformGrid/QuasiUniformGrid `center`, shifted
+         edges of the explicit RectilinearGrid; "real" placements are absolute coordinates and move with it,
+         "center" placements (partial_real_position) are relative to the domain centre and do not
   grid   "uniform" (default) | "rect" (explicit RectilinearGrid, equal spacings) | "quasi" (QuasiUniformGrid)
   symmetry [sx,sy,sz]   complex bool   key int
 """
@@ -31,18 +34,19 @@ def _grid(sc, shape=None):
 
     res = sc.get("res", 50e-9)
     g = sc.get("grid", "uniform")
+    cen = tuple(float(c) for c in sc.get("center", (0.0, 0.0, 0.0)))
     if g == "uniform":
-        return fdtdx.UniformGrid(spacing=res)
+        return fdtdx.UniformGrid(spacing=res, center=cen) if any(cen) else fdtdx.UniformGrid(spacing=res)
     if g == "quasi":
         from fdtdx.core.grid import QuasiUniformGrid
 
-        return QuasiUniformGrid(dx=res, dy=res, dz=res)
+        return QuasiUniformGrid(dx=res, dy=res, dz=res, center=cen) if any(cen) else QuasiUniformGrid(dx=res, dy=res, dz=res)
     if g == "rect":
         from fdtdx.core.grid import RectilinearGrid
 
         shape = shape or sc["shape"]
         # explicit edge arrays with equal spacings, centred like the policies resolve them
-        return RectilinearGrid.custom(*[(np.arange(n + 1, dtype=np.float64) - n / 2) * res for n in shape])
+        return RectilinearGrid.custom(*[cen[a] + (np.arange(n + 1, dtype=np.float64) - n / 2) * res for a, n in enumerate(shape)])
     raise ValueError(g)
 
 
@@ -83,7 +87,8 @@ def _placement(sc, entry, name, lo, hi):
     if mode == "real":
         from fdtdx.objects.object import RealCoordinateConstraint
 
-        coords = tuple((lo[a] - n[a] / 2) * res for a in range(3))
+        cen = sc.get("center", (0.0, 0.0, 0.0))
+        coords = tuple(float(cen[a]) + (lo[a] - n[a] / 2) * res for a in range(3))
         return {}, lambda o: [RealCoordinateConstraint(object=name, axes=(0, 1, 2), sides=("-", "-", "-"), coordinates=coords)]
     if mode == "center":
         pos = tuple(((lo[a] + hi[a]) / 2 - n[a] / 2) * res for a in range(3))
